@@ -7,7 +7,7 @@
    state, the input file is not written — is TESTED by the harness sweep, not
    proved.  Only restatements; proofs are in C18/Proofs.v, C18/AuditProofs.v. *)
 From Coq Require Import List ZArith Bool String Ascii.
-From T4V Require Import C18.Model C18.Proofs C18.Audit C18.AuditProofs C18.Allow.
+From T4V Require Import C18.Model C18.Upstream C18.Proofs C18.Audit C18.AuditProofs C18.Allow.
 Import ListNotations.
 
 (* ---- (a) the state-threaded model --------------------------------------- *)
@@ -96,6 +96,46 @@ Example C18_example :
   nth 0 outs (Err EFuel) = nth 1 outs (Err EFuel) /\ exists o, nth 0 outs (Err EFuel) = Ok o.
 Proof. exact fresh_twice_same. Qed.
 
+(* ---- (a') the same with the upstream phases (C18/Upstream.v): the TRCL,
+   lattice and FILL phases thread new_cell_key, new_surf_key, the
+   cell_transform cache and the insertion order of dic_surf_t4 through
+   pot_transform / cell_transform / apply_trcl / pot_fill; [full_conversion]
+   runs them from a FRESH CellConversion state and feeds the counter and the
+   surface dictionary they produce to the numbering, the cell loop and the
+   writer.  (Which top-level calls the phases make, the transformation tuples
+   and the shapes of the transformed surfaces are data of the input.) ---- *)
+
+Theorem C18_full_run_fresh_state : forall order fs1 fs2 x,
+  snd (full_conversion order fs1 x) = snd (full_conversion order fs2 x).
+Proof. exact full_fresh_state. Qed.
+Print Assumptions C18_full_run_fresh_state.
+
+Theorem C18_full_history_independent : forall order hist fs x,
+  last (snd (run_full_history order fs (hist ++ [x]))) (Err EFuel)
+  = snd (full_conversion order fs0 x).
+Proof. exact full_history_independent. Qed.
+Print Assumptions C18_full_history_independent.
+
+(* the property's quantifier on the extended model *)
+Theorem C18_full_deterministic_model : forall order1 order2 hist1 hist2 fs1 fs2 x,
+  set_preserving order1 -> set_preserving order2 ->
+  last (snd (run_full_history order1 fs1 (hist1 ++ [x]))) (Err EFuel)
+  = last (snd (run_full_history order2 fs2 (hist2 ++ [x]))) (Err EFuel).
+Proof. exact full_deterministic_model. Qed.
+Print Assumptions C18_full_deterministic_model.
+
+(* contrast: started from the cell_transform cache and the counters a previous
+   run of the same deck left behind, the upstream phases do not reproduce what
+   a fresh CellConversion gives *)
+Theorem C18_upstream_state_relevant :
+  (exists r, upstream witness_uinput = Ok r) /\
+  forall st', run_ops (fresh_ustate witness_uinput) (ui_ops witness_uinput) = Ok st' ->
+    upstream_from (mkU (u_ck st') (u_sk st') (u_cache st') (ui_items0 witness_uinput) []
+                       (ui_shapes witness_uinput)) witness_uinput
+    <> upstream witness_uinput.
+Proof. exact upstream_state_relevant. Qed.
+Print Assumptions C18_upstream_state_relevant.
+
 (* ---- (b) the effect-footprint audit: what [audit_ok] guarantees of ANY
    footprint; coq/generated/Footprint.v instantiates these on the footprint of
    the sources of the day, with [audit_ok allow footprint = true] proved by
@@ -119,6 +159,14 @@ Theorem C18_audit_effects_allowlisted : forall al fp, audit_ok al fp = true ->
   is_store e = true \/ is_write e = true \/ is_unknown e = true -> Allowed al e.
 Proof. exact audit_effects_allowlisted. Qed.
 Print Assumptions C18_audit_effects_allowlisted.
+
+(* no live read of the environment, the clock, randomness, object identities /
+   hash values, directory order or the command line, and no live read of state
+   pickled by an earlier run, unless allow-listed *)
+Theorem C18_audit_ambient_allowlisted : forall al fp, audit_ok al fp = true ->
+  forall e, In e fp -> e_live e = true -> is_ambient e = true -> Allowed al e.
+Proof. exact audit_ambient_allowlisted. Qed.
+Print Assumptions C18_audit_ambient_allowlisted.
 
 Theorem C18_audit_fail_closed : forall al fp e,
   In e fp -> e_live e = true -> is_unknown e = true -> allowed_by al e = false ->
